@@ -247,7 +247,7 @@ def run(ctx):
     ctx.floor('R10.5', 'fast-path Ok paths of mcs::Client::read', n, 1)
     # the deframer hands over the complete fast-path PDU: declared length decoded bit-exactly, all of it read (shared with C13)
     import c13
-    ctx.include(c13.run, ('R13.1', 'R13.2', 'R13.5', 'R13.6'), 'R10.5')
+    ctx.include(c13.run, ('R13.1', 'R13.2', 'R13.5', 'R13.6', 'R13.7'), 'R10.5')
     # ---- R10.6 update code: bits 3..0 of updateHeader select the update kind; only code 1 is parsed as bitmap rectangles ----------
     from bits import Bits, describe
     ff = ctx.body('core::global::FastPathUpdate::from_fp')
